@@ -362,10 +362,68 @@ def subclass_cached_getter_case(case):
     return dict(reproduced=bool(violated), violated=violated[:6])
 
 
+def prefix_order_case(case):
+    """C13 (statement): an undeclared name is governed by the wildcard trait with the LONGEST matching prefix, own or inherited,
+    from any base class."""
+    from traits.api import HasTraits, HasStrictTraits, Int, Str, Event, TraitError
+    violated = []
+
+    class Base(HasTraits):
+        foo_bar_ = Str("base")
+
+    class Derived(Base):
+        foo_ = Int(7)
+
+    class Mixin(HasTraits):
+        num_ = Int(3)
+
+    class First(HasTraits):
+        txt_ = Str("t")
+
+    class Both(First, Mixin):
+        pass
+
+    class SBase(HasStrictTraits):
+        sig_fire_ = Event()
+
+    class SDerived(SBase):
+        sig_ = Int(0)
+
+    def governed_as(obj, name, good, bad, label):
+        try:
+            setattr(obj, name, good)
+        except TraitError:
+            violated.append("%s: %r rejected for %s although the longest matching wildcard accepts it" % (label, good, name))
+        try:
+            setattr(obj, name, bad)
+            violated.append("%s: %r accepted for %s although the longest matching wildcard rejects it" % (label, bad, name))
+        except TraitError:
+            pass
+    d = Derived()
+    if d.foo_bar_x != "base":
+        violated.append("Derived().foo_bar_x reads %r: governed by the shorter own wildcard foo_ instead of the inherited foo_bar_" % (d.foo_bar_x,))
+    governed_as(Derived(), "foo_bar_y", "text", 5, "inherited longer wildcard foo_bar_ (Str) vs own foo_ (Int)")
+    governed_as(Derived(), "foo_z", 5, "text", "own wildcard foo_ (Int)")
+    b = Both()
+    try:
+        if b.num_a != 3:
+            violated.append("Both().num_a reads %r, the wildcard num_ of the second base says 3" % (b.num_a,))
+    except AttributeError as e:
+        violated.append("Both().num_a raised AttributeError: the wildcard of the second base class is not consulted (%s)" % e)
+    governed_as(Both(), "num_b", 4, "text", "wildcard num_ (Int) from the second base")
+    sd = SDerived()
+    try:
+        sd.sig_fire_now
+        violated.append("SDerived().sig_fire_now is readable although the inherited Event wildcard sig_fire_ governs it")
+    except AttributeError:
+        pass
+    return dict(reproduced=bool(violated), violated=violated[:8])
+
+
 def main():
     case = json.loads(sys.stdin.read())
     out = {"get_trait": get_trait_case, "clone": clone_case, "prefix_trait_unhashable": prefix_trait_unhashable_case,
-           "prefix_cache_inherited": prefix_cache_inherited_case, "copy_traits": copy_traits_case, "default_isolation": default_isolation_case, "subclass_cached_getter": subclass_cached_getter_case}[case["family"]](case)
+           "prefix_cache_inherited": prefix_cache_inherited_case, "copy_traits": copy_traits_case, "default_isolation": default_isolation_case, "subclass_cached_getter": subclass_cached_getter_case, "prefix_order": prefix_order_case}[case["family"]](case)
     print(json.dumps(out, default=repr))
 
 
